@@ -435,6 +435,18 @@ def check_truncate(ctx, repo, cls):
                         st[t] = (src[0], "UNKNOWN")
                 else:
                     st.pop(t, None)
+            elif isinstance(s_, ast.Expr) and isinstance(s_.value, ast.Call) and isinstance(s_.value.func, ast.Attribute) and s_.value.func.attr in ("append", "extend", "insert") \
+                    and access_path(s_.value.func.value) in st:
+                t = access_path(s_.value.func.value)
+                if st[t][1] in ("LARGEST", "SMALLEST"):
+                    defect = defect or ("after the cut to `%s` members, more members are put back into the kept part (%s): the archive can hold more than `%s` members"
+                                        % (size, text(s_).strip()[:80], size))
+                st[t] = (st[t][0], "UNKNOWN")
+            elif isinstance(s_, ast.AugAssign) and isinstance(s_.op, ast.Add) and access_path(s_.target) in st:
+                t = access_path(s_.target)
+                if st[t][1] in ("LARGEST", "SMALLEST"):
+                    defect = defect or ("after the cut to `%s` members, more members are added to the kept part (%s): the archive can hold more than `%s` members" % (size, text(s_).strip()[:80], size))
+                st[t] = (st[t][0], "UNKNOWN")
             elif isinstance(s_, ast.Expr) and is_method_call(s_.value, "reverse") and access_path(s_.value.func.value) in st:
                 t = access_path(s_.value.func.value)
                 st[t] = (FLIP[st[t][0]], st[t][1])
